@@ -30,6 +30,9 @@ func c05Step(x *engine.Exec) []engine.Failure {
 	for _, den := range s.Denoms {
 		a := s.Assets[den]
 		for v := range w.Vals {
+			if _, err := w.App.StakingKeeper.GetValidator(ctx, w.Vals[v]); err != nil {
+				continue // the property speaks of existing validators: x/staking has removed this one
+			}
 			if D := s.Vals[v].DelShares[den]; D != nil && D.Cmp(two63) >= 0 {
 				x.Cnt.Inc("state.validator_with_2^63_delegator_shares")
 			}
@@ -64,6 +67,9 @@ func c05Step(x *engine.Exec) []engine.Failure {
 		}
 		classify := func(err error) string {
 			e := err.Error()
+			if _, verr := w.App.StakingKeeper.GetValidator(ctx, w.Vals[p.V]); verr != nil && strings.Contains(e, "does not exist") {
+				return "validator-removed-while-alliance-stake-on-it"
+			}
 			vs := s.Vals[p.V]
 			D, vt := vs.DelShares[p.Denom], vs.Tokens[p.Denom]
 			switch {
@@ -186,6 +192,7 @@ func init() {
 					mk("c05-empty", [][]world.Op{nil}, []int{4, 2, 1, 2, 0}, 7),
 					mk("c05-staked", [][]world.Op{staked, deep}, []int{3, 2, 1, 2, 0}, 6),
 					unionScenarioDepth("C05", "c05-union", tier, c05Step, nil, 5),
+					unionFullScenario("C05", "c05-union-full-pipeline", tier, c05Step, nil, 5),
 				}
 			}
 			return []*engine.Scenario{
@@ -193,6 +200,7 @@ func init() {
 				mk("c05-empty", [][]world.Op{nil}, []int{3, 1, 1, 2, 0}, 4),
 				mk("c05-staked", [][]world.Op{staked, deep}, []int{2, 1, 1, 2, 0}, 3),
 				unionScenarioDepth("C05", "c05-union", tier, c05Step, nil, 3),
+				unionFullScenario("C05", "c05-union-full-pipeline", tier, c05Step, nil, 3),
 			}
 		},
 		Assumptions: []string{
